@@ -274,7 +274,7 @@ func main() {
 		case 7:
 			must = []string{"normalize"}
 		case 8:
-			must = []string{"flag-arg", "implicit-node"}
+			must = []string{"flag-arg", "implicit-node", "union"}
 		case 0:
 			must = []string{"js-throw"}
 		case 1, 2:
@@ -519,7 +519,7 @@ func main() {
 		env := pipe.Env{Header: f.Name == "xml" && r.Chance(0.5), Ctx: "H1"}
 		pipe.Skip["dyn3"] = true
 		schema, feats := f.SchemaWith(r, []string{"plain", "cast", "identical-decls", "identical-decls-anchoring", "template",
-			"template-dynamic-anchors", "typed-externals", "external-const", "xpath_dynamic", "late-cast"},
+			"template-dynamic-anchors", "typed-externals", "external-const", "xpath_dynamic", "late-cast", "union"},
 			[]string{f.AncestorField(), f.AncestorManyField(r.Between(12, 40))}, env)
 		delete(pipe.Skip, "dyn3")
 		if feats["javascript"] || feats["javascript_with_context"] || feats["js-whitespace"] || feats["js-throw"] || feats["js-global-probe"] {
@@ -571,10 +571,11 @@ func main() {
 	for b := 0; b < npairs; b++ {
 		f := fmts[[]int{0, 1, 2, 5, 6}[r.Pick(5)]] // formats whose field c can hold a date-time text
 		env := pipe.Env{Header: r.Chance(0.5), Trailer: r.Chance(0.5), Ctx: "H1"}
-		variants := [][2]string{{"true", "false"}, {"America/New_York", "UTC"}, {"Asia/Tokyo", ""}, {"SECOND", "MILLISECOND"}, {"pre-", "PRE-"}}
+		variants := [][2]string{{"true", "false"}, {"America/New_York", "UTC"}, {"Asia/Tokyo", ""}, {"SECOND", "MILLISECOND"}, {"pre-", "PRE-"},
+			{"\n\n        ", ""}, {"\n\t", ""}} // the last two: white space around a script passed with no_trim
 		which := r.Pick(len(variants))
 		mk := func(v string) string {
-			ltz, from, to, unit, pre := "false", "", "", "SECOND", "pre-"
+			ltz, from, to, unit, pre, ws := "false", "", "", "SECOND", "pre-", ""
 			switch which {
 			case 0:
 				ltz = v
@@ -586,7 +587,13 @@ func main() {
 				unit = v
 			case 4:
 				pre = v
+			case 5, 6:
+				ws = v
 			}
+			// a script that throws on a = FAIL; its text is unique to this pair, and only the white
+			// space around it differs between the two schemas of the pair
+			script := ws + fmt.Sprintf("if (v == 'FAIL') { throw new Error('boom%d-%d') }; v", o.Seed, b) + strings.ReplaceAll(ws, "\n", " \n")
+			sj, _ := json.Marshal(script)
 			ex := []string{
 				`"dt1": {"custom_func":{"name":"dateTimeLayoutToRFC3339","ignore_error":true,"args":[{"xpath":"c"},{"const":"2006-01-02 15:04:05"},{"const":"` + ltz + `"},{"const":"` + from + `"},{"const":"` + to + `"}]}}`,
 				`"dt2": {"custom_func":{"name":"dateTimeToRFC3339","ignore_error":true,"args":[{"xpath":"c"},{"const":"` + from + `"},{"const":"` + to + `"}]}}`,
@@ -594,6 +601,7 @@ func main() {
 				`"cc": {"custom_func":{"name":"concat","args":[{"const":"` + pre + `"},{"xpath":"a","keep_empty_or_null":true}]}}`,
 				`"uu": {"custom_func":{"name":"uuidv3","args":[{"custom_func":{"name":"concat","args":[{"const":"` + pre + `"},{"xpath":"c","keep_empty_or_null":true}]}}]}}`,
 				`"lo": {"custom_func":{"name":"lower","args":[{"custom_func":{"name":"concat","args":[{"const":"` + pre + `"},{"xpath":"c","keep_empty_or_null":true}]}}]}}`,
+				`"wt": {"custom_func":{"name":"javascript","args":[{"const":` + string(sj) + `,"no_trim":true},{"const":"v"},{"xpath":"a","keep_empty_or_null":true}]}}`,
 			}
 			rr := vh.NewRng(int64(b)*7919 + o.Seed) // the same declarations otherwise
 			pipe.OnlyMust = true
@@ -607,6 +615,9 @@ func main() {
 		for i := range recs {
 			recs[i] = pipe.GenRec(r, f, true)
 			recs[i].C = dts[r.Pick(len(dts))]
+			if which >= 5 && r.Chance(0.4) {
+				recs[i].A = "FAIL" // the script throws: the error text carries source positions
+			}
 			if strings.HasPrefix(recs[i].C, "2021") {
 				// values no other pair (and nothing else in this process) has evaluated before
 				recs[i].C = fmt.Sprintf("2021-03-%02d %02d:%02d:07", 1+b%28, (b/28)%24, r.Pick(3))
@@ -621,7 +632,7 @@ func main() {
 		ta := runOnce(ca) // A first, then B
 		tb := runOnce(cb)
 		pipe.Unwatch()
-		sum.Hist("schema-pair:" + []string{"layout_tz", "from_tz", "to_tz", "epoch-unit", "concat-prefix"}[which])
+		sum.Hist("schema-pair:" + []string{"layout_tz", "from_tz", "to_tz", "epoch-unit", "concat-prefix", "script-whitespace", "script-whitespace"}[which])
 		canon, _ := json.Marshal([]pipe.Case{ca, cb})
 		sum.Count(string(canon), true)
 		cw.Add("C15Det "+coqRuns([]pipe.Transcript{ta, ta}), map[string]interface{}{"kind": "schema-pair", "format": f.Name})
@@ -677,10 +688,10 @@ func main() {
 			}
 			for i, b := range batch {
 				sum.Hist("fresh-process-comparisons")
-				if !b.first.Equal(ts[i]) {
-					k := pipe.FirstDiff(b.first, ts[i])
+				if !b.first.EqualMsg(ts[i]) {
+					k := pipe.FirstDiffMsg(b.first, ts[i])
 					sum.Fail("transcript of a fresh process differs from the in-process transcript (first difference at result "+fmt.Sprint(k)+")",
-						b.cs, map[string]interface{}{"in_process": entryAt(b.first, k), "fresh_process": entryAt(ts[i], k)})
+						b.cs, map[string]interface{}{"in_process": withMsg(b.first, k), "fresh_process": withMsg(ts[i], k)})
 				}
 				cw.Add("C15Det "+coqRuns([]pipe.Transcript{b.first, ts[i]}), map[string]interface{}{"case": b.cs, "kind": "fresh-process"})
 			}
